@@ -1593,7 +1593,7 @@ class Engine(Executor):
             # K2: on a path through this loop, every value the generator yields is yielded by one of its iterations
             # (what an iteration yields is pinned down by the per-iteration post-conditions)
             # (inside the body of an enclosing loop the output so far is that loop's abstraction marker: nothing concrete)
-            self.prove(st, T(all(v == "havoc" for (v, _l) in st.out)), "K2", stmt,
+            self.prove(st, T(all(v == "havoc" and _l in st.flags.get("loop_stack", ()) for (v, _l) in st.out)), "K2", stmt,
                        "nothing is yielded before the loop %r (declared the only yielder on its paths)" % key, clause="sole_yielder:entry")
             st = st.fork()
             st.out = []
@@ -1624,6 +1624,8 @@ class Engine(Executor):
                     body.env[n] = Z(body.env[n].t)          # no static hint for a variable whose type is not stable
             if st.out or has_yield or sole:
                 body.out = [("havoc", tag)]
+            body.flags = dict(body.flags)
+            body.flags["loop_stack"] = tuple(body.flags.get("loop_stack", ())) + (tag,)       # the loops this body is nested in
             body.ghost = dict(body.ghost)
             body.ghost["events"] = []
             for (n, mk) in cands:
